@@ -330,6 +330,9 @@ def run(ctx):
     # ------------------------------------------------------------------ R05.5 attach handle
     import rules.c17 as c17
     c17.attach_handle_rules(ctx, F, rule="R05.5")
+    # compile-fail witnesses (type-level part of the property), discharged by rustc's type checker
+    from mq import witness as _w
+    _w.report_cf(ctx, "W05", _w.run_witness(), "C05")
     return EXPL
 
 
